@@ -30,7 +30,7 @@ def single_gen(comp):
     return comp.elt, g.target, g.iter, g.ifs
 
 
-def style_filter(fn, name="filtr"):
+def style_filter(fn, name=None):
     """The repository's idiom
            if use_style: filtr = lambda c: c.has_contest(self.contest.id)
            else:         filtr = lambda c: True
@@ -38,8 +38,9 @@ def style_filter(fn, name="filtr"):
     for st in walk_local(fn):
         if isinstance(st, ast.If) and len(st.body) == 1 and len(st.orelse) == 1:
             a, b = st.body[0], st.orelse[0]
-            if all(isinstance(x, ast.Assign) and len(x.targets) == 1 and norm(x.targets[0]) == name
-                   and isinstance(x.value, ast.Lambda) for x in (a, b)):
+            if all(isinstance(x, ast.Assign) and len(x.targets) == 1 and isinstance(x.targets[0], ast.Name)
+                   and isinstance(x.value, ast.Lambda) for x in (a, b)) and norm(a.targets[0]) == norm(b.targets[0]) \
+                    and (name is None or norm(a.targets[0]) == name):
                 def f(argname, tx_factory, st=st, a=a, b=b):
                     tx = tx_factory()
                     c = tx.cond(st.test)
@@ -49,6 +50,7 @@ def style_filter(fn, name="filtr"):
                         t2 = tx.child({**tx.env, p: E(S(argname))})
                         res.append(t2.cond(lam.body))
                     return c_or(c_and(c, res[0]), c_and(c_not(c), res[1]))
+                f.name = norm(a.targets[0])
                 return f, st
     return None, None
 
